@@ -50,7 +50,11 @@ Proof. exact lex_errors_wf. Qed.
 
 (* node_wf + sel_in_full + lines_exist + diag_wf in one statement about the entry point:
    parse_gold returns a tree (C04) every node of which is NodeWf, and every diagnostic it
-   reports has a well-formed range on existing lines (or the default range 0:0-0:0) *)
+   reports has a well-formed range on existing lines.  (The recovering loops no longer report with
+   the default range 0:0-0:0: an error at the very end of their input sits on the last token the
+   failing parser was given, resp. on the separator in front of a missing list item -- RangeRel.v
+   diag_at_ok / sep_diag_ok have no default-range case any more; that the range is that of TOKENS of
+   the parsed slice is C09_new_diags_at_body_tokens.) *)
 Theorem C08_parse_gold_wf :
   forall L ts, TokSorted L ts ->
     exists root c, parse_gold ts = (Ok [] root, c) /\
